@@ -92,12 +92,18 @@ Definition store_set (sid : bytes) (k : tkind) (st : store) : option store :=
 
 Definition sids (st : store) : list bytes := map fst st.
 
+Definition is_nil {A} (l : list A) : bool := match l with [] => true | _ => false end.
+
 (* ------------------------------------------------------------------ requests and responses *)
-Inductive meth := GET | POST | PUT | DELETE | OPTIONS | OTHER.
+Inductive meth := GET | POST | PUT | DELETE | OPTIONS | CONNECT | OTHER.
+Inductive proto := P1 | P2 | P3.      (* r.ProtoMajor *)
+Definition is_p3 (p : proto) : bool := match p with P3 => true | _ => false end.
+Definition is_connect (m : meth) : bool := match m with CONNECT => true | _ => false end.
 Definition is_get (m : meth) : bool := match m with GET => true | _ => false end.
 Definition is_get_or_post (m : meth) : bool := match m with GET | POST => true | _ => false end.
 
 Record request := mkReq {
+  r_proto : proto;
   r_meth : meth;
   r_eio : bytes;       (* q.Get("EIO") *)
   r_tr : bytes;        (* q.Get("transport") *)
@@ -112,6 +118,9 @@ Inductive response :=
 | RForbidden                      (* 403 *)
 | RInternal                       (* 500 *)
 | ROpen (sid : bytes) (k : tkind) (* 200 (polling) / 101 (websocket) carrying the OPEN packet *)
+| ROpenVia (sid : bytes) (m : meth) (* HTTP/3 only: polling handshake with a method other than GET: the
+                                      transport answers as for that method ("ok" / nothing), the OPEN
+                                      packet stays queued, the session is created all the same *)
 | ROverlap (sid : bytes)          (* OPEN packet already written, then store.set refused the sid *)
 | RPoll                           (* 200 + payload *)
 | RData                           (* 200 "ok" *)
@@ -139,26 +148,29 @@ Definition close_socket (sid : bytes) (st : sstate) : sstate :=
   set_store st (store_delete sid (s_store st)).
 
 (** [newSocket] (after the transport handshake wrote the OPEN packet). *)
-Definition new_socket (st : sstate) (sid : bytes) (k : tkind) : response * sstate :=
+Definition new_socket (st : sstate) (sid : bytes) (k : tkind) (answer : response) : response * sstate :=
   match store_set sid k (s_store st) with
   | None => (ROverlap sid, close_socket sid st)      (* socket.close -> store.delete(sid) *)
   | Some s' =>
       let st' := set_store st s' in
-      if s_closed st' then (ROpen sid k, close_socket sid st')   (* re-check after the insertion *)
-      else (ROpen sid k, st')
+      if s_closed st' then (answer, close_socket sid st')   (* re-check after the insertion *)
+      else (answer, st')
   end.
 
 Definition handshake (rnd : N -> bytes) (st : sstate) (rq : request) : response * sstate :=
-  if negb (is_get (r_meth rq)) then (RErr 2, st)
+  if negb (is_get (r_meth rq)) && negb (is_p3 (r_proto rq)) then (RErr 2, st)
+  else if is_connect (r_meth rq) && is_p3 (r_proto rq) && is_nil (r_tr rq) then
+    (RErr 0, st)                       (* onWebTransport: no WebTransport server configured *)
   else if negb (r_auth rq) then (RForbidden, st)
   else
     match generate_sid rnd (s_store st) (s_seq st) 11 with
     | (None, q) => (RInternal, set_seq st q)
     | (Some sid, q) =>
         let st1 := set_seq st q in
-        if bytes_eqb (r_tr rq) s_polling then new_socket st1 sid Polling
+        if bytes_eqb (r_tr rq) s_polling then
+          new_socket st1 sid Polling (if is_get (r_meth rq) then ROpen sid Polling else ROpenVia sid (r_meth rq))
         else if bytes_eqb (r_tr rq) s_websocket then
-          if r_wsup rq then new_socket st1 sid Websocket else (RLib 426, st1)
+          if r_wsup rq then new_socket st1 sid Websocket (ROpen sid Websocket) else (RLib 426, st1)
         else (RErr 0, st1)
     end.
 
@@ -175,7 +187,7 @@ Definition transport_serve (k : tkind) (m : meth) : response :=
 
 Definition serve (rnd : N -> bytes) (st : sstate) (rq : request) : response * sstate :=
   if s_closed st then (RClosed, st)
-  else if negb (eio_is4 (r_eio rq)) then (RErr 5, st)
+  else if negb (is_p3 (r_proto rq)) && negb (eio_is4 (r_eio rq)) then (RErr 5, st)
   else
     match r_sid rq with
     | [] => handshake rnd st rq
@@ -183,7 +195,7 @@ Definition serve (rnd : N -> bytes) (st : sstate) (rq : request) : response * ss
         match store_get (r_sid rq) (s_store st) with
         | None => (RErr 1, st)
         | Some k =>
-            if negb (is_get_or_post (r_meth rq)) then (RErr 2, st)
+            if negb (is_get_or_post (r_meth rq)) && negb (is_p3 (r_proto rq)) then (RErr 2, st)
             else if negb (bytes_eqb (tname k) (r_tr rq)) then (maybe_upgrade rq, st)
             else (transport_serve k (r_meth rq), st)
         end
@@ -213,15 +225,18 @@ Definition code_of (d : defect) : N :=
   | UnknownTransport => 0 | UnknownSid => 1 | BadMethod => 2 | BadSessionTransport => 3 | BadVersion => 5
   end%N.
 
-Definition is_nil {A} (l : list A) : bool := match l with [] => true | _ => false end.
+(** The WebTransport session request: extended CONNECT over HTTP/3 without a transport name.  It
+    carries no EIO parameter and is not a GET; it is the only request exempt from those checks. *)
+Definition wt_connect (rq : request) : bool :=
+  is_p3 (r_proto rq) && is_connect (r_meth rq) && is_nil (r_tr rq) && is_nil (r_sid rq).
 
 Definition has_defect (st : sstate) (rq : request) (d : defect) : bool :=
   let live := store_get (r_sid rq) (s_store st) in
   match d with
-  | BadVersion => negb (eio_is4 (r_eio rq))
+  | BadVersion => negb (eio_is4 (r_eio rq)) && negb (wt_connect rq)
   | UnknownSid => negb (is_nil (r_sid rq)) && match live with None => true | Some _ => false end
   | BadMethod =>
-      if is_nil (r_sid rq) then negb (is_get (r_meth rq))
+      if is_nil (r_sid rq) then negb (is_get (r_meth rq)) && negb (wt_connect rq)
       else match live with Some _ => negb (is_get_or_post (r_meth rq)) | None => false end
   | UnknownTransport =>
       is_nil (r_sid rq) && negb (bytes_eqb (r_tr rq) s_polling || bytes_eqb (r_tr rq) s_websocket)
